@@ -384,6 +384,9 @@ type AEADCall struct {
 	DataLen  int
 	Err      bool
 	Thread   int
+	KeyHash  string // fingerprint of the key bytes (keys that never lived in a tracked secret have KeyID 0)
+	KeyZero  bool   // the key consists of zero bytes only
+	Data     []byte // copy of the plaintext passed to Encrypt (small inputs only)
 }
 
 // SpyAEAD wraps the repository's real AES-256-GCM.
@@ -417,7 +420,10 @@ var ErrAEAD = errors.New("doubles: injected AEAD failure")
 
 func (a *SpyAEAD) Encrypt(data, key []byte) ([]byte, error) {
 	defer vsched.LockDoubles()()
-	c := AEADCall{Seq: len(a.Calls), Op: "Encrypt", DataLen: len(data), Thread: vsched.CurThread()}
+	c := AEADCall{Seq: len(a.Calls), Op: "Encrypt", DataLen: len(data), Thread: vsched.CurThread(), KeyHash: fmt.Sprintf("%x", keyFingerprint(key)), KeyZero: isZero(key)}
+	if len(data) <= 64 {
+		c.Data = append([]byte(nil), data...)
+	}
 	if a.F != nil {
 		c.KeyID = a.F.KeyIDOf(key)
 		c.DataKeyID = a.F.KeyIDOf(data)
@@ -456,4 +462,29 @@ func (a *SpyAEAD) Decrypt(data, key []byte) ([]byte, error) {
 	}
 	a.Calls = append(a.Calls, c)
 	return out, err
+}
+
+func keyFingerprint(k []byte) [8]byte {
+	var out [8]byte
+	var h uint64 = 1469598103934665603
+	for _, b := range k {
+		h ^= uint64(b)
+		h *= 1099511628211
+	}
+	for i := range out {
+		out[i] = byte(h >> (8 * i))
+	}
+	return out
+}
+
+func isZero(b []byte) bool {
+	if len(b) == 0 {
+		return false
+	}
+	for _, x := range b {
+		if x != 0 {
+			return false
+		}
+	}
+	return true
 }
